@@ -497,3 +497,70 @@ func ruleRev(w *World, r *Report) {
 		r.bad("C12-REV", "reverse", "", "no transform function (query, iterator) -> iterator found")
 	}
 }
+
+
+// ---------- C02-TRUTH ----------
+
+func ruleTruth(w *World, r *Report) {
+	r.rule("C02-TRUTH", "the predicate filter converts the value of its predicate with a branch for each documented result type: bool => itself, string => non-empty, number => position test, node-set => Select != nil; the candidate is made the context node (a copy) before the predicate is evaluated")
+	h := w.positionHelper()
+	sel, ev := w.selectMethod(), w.evaluateMethod()
+	for _, qt := range w.census.Types {
+		for _, fn := range qt.Methods {
+			uses := false
+			eachInstr(fn, false, func(_ *ssa.Function, in ssa.Instruction) {
+				if c, ok := in.(*ssa.Call); ok && h != nil && c.Call.StaticCallee() == h {
+					uses = true
+				}
+			})
+			if !uses {
+				continue
+			}
+			r.FuncsAnalysed[fnName(fn)] = true
+			cs := w.calleeNames(fn)
+			has := func(k string) bool { return len(cs[k]) > 0 }
+			var missing []string
+			if !has("(reflect.Value).Bool") {
+				missing = append(missing, "bool")
+			}
+			if !has("(reflect.Value).String") {
+				missing = append(missing, "string")
+			}
+			if !has("(reflect.Value).Float") {
+				missing = append(missing, "number")
+			}
+			if !has("iface:"+sel) {
+				missing = append(missing, "node-set")
+			}
+			evalFirst := has("iface:" + ev)
+			key := qt.Name() + ":" + fn.Name()
+			if len(missing) == 0 && evalFirst {
+				r.ok("C02-TRUTH", key, w.pos(fn.Pos()), "predicate value dispatched over bool, string, number and node-set")
+			} else {
+				r.bad("C02-TRUTH", key, w.pos(fn.Pos()), fmt.Sprintf("the predicate filter has no branch for %v (predicate evaluated first: %v): predicates of that type are silently false", missing, evalFirst))
+			}
+			// string => len > 0 ; bool => itself: checked by shape: the string branch compares a length with 0
+			okStr := false
+			eachInstr(fn, false, func(_ *ssa.Function, in ssa.Instruction) {
+				if bo, ok := in.(*ssa.BinOp); ok && bo.Op == token.GTR {
+					if k, ok := constInt(bo.Y); ok && k == 0 && lenOperand(bo.X) != nil {
+						okStr = true
+					}
+				}
+				if bo, ok := in.(*ssa.BinOp); ok && bo.Op == token.NEQ {
+					if s, ok := constString(bo.Y); ok && s == "" {
+						okStr = true
+					}
+				}
+			})
+			if okStr {
+				r.ok("C02-TRUTH", key+":string", w.pos(fn.Pos()), "a string predicate is true iff non-empty")
+			} else {
+				r.bad("C02-TRUTH", key+":string", w.pos(fn.Pos()), "a string-valued predicate is not converted by `length > 0`")
+			}
+		}
+	}
+	if r.count("C02-TRUTH") == 0 {
+		r.bad("C02-TRUTH", "filter", "", "predicate dispatch not found")
+	}
+}
